@@ -12,6 +12,9 @@ GRAMMARS = [
     ('start: _list\n_list: X | _list "," X\nX: "x"', ['x', 'x,x', 'x,x,x,x', 'x,']),
     ('start: a* b?\na: "a" ";"\nb: "b"', ['a;a;b', 'b', 'a;', '']),
     ('start: (k X)*\nk: "\u4e2d" | "\u00df"\nX: "x"', ['\u4e2dx', '\u4e2dx\u00dfx', '\u4e2d']),       # anonymous terminals named after characters without case
+    # an inlined rule that can be empty sits on the value stack as a childless node: forks must not share its (empty) children list
+    ('start: _items\n_items: | _items item\nitem: A | B\nA: "a"\nB: "b"', ['ab', 'aab', 'b', '']),
+    ('start: decl+\ndecl: _mods NAME ";"\n_mods: MOD*\nMOD: "m"\nNAME: /[x-z]/', ['mx;y;', 'x;mmy;']),
 ]
 fail = None
 evals = distinct = 0
@@ -95,16 +98,16 @@ for g, texts in GRAMMARS:
                         note('immutable', {'grammar': g, 'text': text, 'fed': i}, list(im2.parser_state.state_stack), list(ip.parser_state.state_stack))
                 except UnexpectedToken:
                     ok = False; break
-            if ok and fail is None:
+            if ok and not any(f_['key'] != 'accepts-noncased-terminal' for f_ in fails):
                 try:
                     res = ('ok', ip.feed_eof())
                 except UnexpectedInput as e:
                     res = ('err', type(e).__name__, None)
                 if res[0] != whole[0] or (res[0] == 'ok' and res[1] != whole[1]):
                     note('feed-equals-parse', {'grammar': g, 'text': text, 'lexer': lexer}, str(res)[:200], str(whole)[:200])
-            if fail: break
-        if fail: break
-    if fail: break
+            if any(f['key'] != 'accepts-noncased-terminal' for f in fails): break
+        if any(f['key'] != 'accepts-noncased-terminal' for f in fails): break
+    if any(f['key'] != 'accepts-noncased-terminal' for f in fails): break
 # resume from an error state: parse(text, on_error=skip the offending token) must equal parse(text without that token)
 RES = [('start: "x" _items "b"\n_items: A | _items A\nA: "a"\nC: "c"\n%ignore C', None),
        ('start: "x" _items "b"\n_items: A | _items A\nA: "a"\nC: "c"', ['xaacb', 'xacab', 'xaaacb', 'xcab', 'xaab']),
